@@ -120,7 +120,7 @@ def h_mapping_file(nrows, ncols, variant):
         if len(set(ids)) != len(ids):
             raise Abort()
     fields = [[T.raw(f'f{r}_{c}', FIELDD, maxlen=4) for c in range(ncols)] for r in range(nrows)]
-    short_row = choice(nrows + 1, 'short-row') - 1 if variant == 'short-rows' else -1      # -1: none
+    short_row = choice(nrows + 1, 'short-row') - 1 if variant in ('short-rows', 'process-fns') else -1      # -1: none
     quoted = variant == 'quoted'
     lines = []
     header_line = '#SampleID\t' + '\t'.join(cols) + '\n'
@@ -156,7 +156,7 @@ def h_mapping_file(nrows, ncols, variant):
         exp_cols = ['X%d' % c for c in range(k)]
         lines = [l for l in lines if l is not header_line]
     if variant == 'process-fns':
-        kw['process_fns'] = {cols[0]: tag, 'not-a-column': tag}
+        kw['process_fns'] = {cols[0]: tag, cols[-1]: tag, 'not-a-column': tag}       # the last column may be a padded '' (short row)
     sig = dict(variant=variant)
     r, e = call(lambda: P.MetadataMap.from_file(lines, **kw))
     if e is not None:
@@ -177,7 +177,7 @@ def h_mapping_file(nrows, ncols, variant):
         for c, col in enumerate(exp_cols):
             want = fields[rr][c] if not (rr == short_row and c == ncols - 1) else ''
             val = got[col]
-            if variant == 'process-fns' and c == 0:
+            if variant == 'process-fns' and c in (0, ncols - 1):
                 if not (isinstance(val, tuple) and val[0] == 'processed'):
                     fail('mapfile:process-fn-not-applied', repr(val), **sig)
                     return
